@@ -231,3 +231,27 @@ def load_program(stds=('gnu++17',), verbose=False):
                 name, std, cid, err = ln.split('\t', 3)
                 dropped.append((name, std, cells_by_id.get(cid), err))
     return Program(units, dropped, key, list(stds))
+
+
+_FIXTURE = {}
+
+
+def load_fixture(std='gnu++17'):
+    """Unit with the tiny positive / negative examples of /verif/fixtures (analysed with the same extractor)."""
+    if std in _FIXTURE:
+        return _FIXTURE[std]
+    src = os.path.join(FIXTURES, 'positive.cpp')
+    if not os.path.exists(src):
+        raise AnalysisBroken('fixtures/positive.cpp is missing')
+    build_bgx()
+    h = hashlib.sha256(open(src, 'rb').read() + open(BGX_SRC, 'rb').read() + std.encode()).hexdigest()[:16]
+    d = os.path.join(CACHE, 'fixture_' + h)
+    out = os.path.join(d, 'positive.%s.json' % std)
+    if not os.path.exists(out):
+        os.makedirs(d, exist_ok=True)
+        r = _run_bgx(src, out, std, [FIXTURES])
+        if r.returncode != 0 or not os.path.exists(out):
+            raise AnalysisBroken('fixture unit does not compile: ' + r.stderr[-500:])
+    u = Unit(out, 'fixture', std)
+    _FIXTURE[std] = u
+    return u
